@@ -41,7 +41,9 @@ def gen_module(rng, tag):
             else:
                 src, txt = rng.choice(PRINT) if rng.random() < 0.3 else (str(i), str(i))
                 ps, tx = [("x", "printable", src)], [txt]
-            dec.append({"fname": fname, "name": None, "id": rng.choice([None, None, None, str(i), "same"]), "params": ps, "_txt": tx})
+            # explicit ids: the own position, the position of a LATER or EARLIER repetition, one shared id
+            dec.append({"fname": fname, "name": None, "id": rng.choice([None, None, None, str(i), "same", str(i + 1), str(n - 1), "0"]),
+                        "params": ps, "_txt": tx})
     return {"prefixed": prefixed, "decorated": dec, "tag": tag}
 
 
